@@ -181,8 +181,29 @@ def worker(prop, tier, seed, shard, nshards, outpath):
     res['fingerprints'] = sorted(fps)
     res['nontrivial'] = sorted(ntfps)
     res['wall'] = time.perf_counter() - t0
+    res['python'] = '%d.%d.%d' % sys.version_info[:3]
     with open(outpath, 'w') as f:
         json.dump(res, f)
+
+
+def other_interpreter():
+    """path of a second python interpreter able to import the library, or None
+    (VERIF_OTHER_PYTHON overrides; 'none' disables)"""
+    import shutil
+    cand = os.environ.get('VERIF_OTHER_PYTHON')
+    if cand == 'none':
+        return None
+    cand = cand or shutil.which('python3-vt')
+    if not cand:
+        return None
+    try:
+        r = subprocess.run([cand, '-c', 'import sys; print("%d.%d" % sys.version_info[:2])'],
+                           capture_output=True, text=True, timeout=60)
+    except (OSError, subprocess.TimeoutExpired):
+        return None
+    if r.returncode or r.stdout.strip() == "%d.%d" % sys.version_info[:2]:
+        return None
+    return cand
 
 
 def _diverse(violations):
@@ -228,14 +249,24 @@ def run_check(prop, tier, seed):
     nshards = NSHARDS
     env = dict(os.environ, PYTHONHASHSEED='0', VERIF_REPO=REPO)
     procs = []
-    for shard in range(nshards):
-        outpath = os.path.join(scratch, 'shard%d.json' % shard)
-        cmd = [sys.executable, '-B', '-m', 'vmon.campaign', '--worker', prop, tier, str(seed),
+    plan = [(sys.executable, shard) for shard in range(nshards)]
+    # second platform: the same library on another interpreter (different
+    # asyncio internals, e.g. gather() on finished tasks yields before 3.12):
+    # a quarter of the workload is run again under it
+    other = other_interpreter()
+    n_other = 0
+    if other:
+        n_other = max(1, nshards // 4)
+        plan += [(other, shard) for shard in range(n_other)]
+    for k, (exe_, shard) in enumerate(plan):
+        outpath = os.path.join(scratch, 'shard%d.json' % k)
+        cmd = [exe_, '-B', '-m', 'vmon.campaign', '--worker', prop, tier, str(seed),
                str(shard), str(nshards), outpath]
         procs.append((subprocess.Popen(cmd, cwd=VERIF, env=env, stdout=subprocess.PIPE,
                                        stderr=subprocess.STDOUT), outpath))
     watchdog = float(os.environ.get('VERIF_WATCHDOG', 1500 if tier == 'quick' else 6 * 3600))
     inconclusive = []
+    by_python = {}
     merged = dict(cases=0, discarded=0, events=0, ties=0, nviol=0, nviol_by_key={}, counters={}, violations=[],
                   samples={}, per_source={}, errors=[], tags={})
     fps, ntfps = set(), set()
@@ -252,6 +283,9 @@ def run_check(prop, tier, seed):
                                 % (shard, proc.returncode, out.decode(errors='replace')[-800:]))
             continue
         res = json.load(open(outpath))
+        by_python[res.get('python', '?')] = by_python.get(res.get('python', '?'), 0) + res['cases']
+        for v in res['violations']:
+            v['python'] = res.get('python')
         for k in ('cases', 'discarded', 'events', 'ties', 'nviol'):
             merged[k] += res[k]
         for k, v in res['counters'].items():
@@ -293,13 +327,14 @@ def run_check(prop, tier, seed):
     for v in _diverse(new)[:MAX_REPLAYS_WRITTEN]:
         os.makedirs(replay_dir, exist_ok=True)
         body = dict(property=prop, clause=v['clause'], mechanism=v['key'], message=v['message'], source=v['source'],
+                    python=v.get('python'),
                     more=v['more'], **v['replay'])
         digest = hashlib.md5(json.dumps(body, sort_keys=True).encode()).hexdigest()[:12]
         path = os.path.join('replays', prop, digest + '.json')
         with open(os.path.join(OUT, path), 'w') as f:
             json.dump(body, f, indent=1)
         lines.append("VIOLATION property=%s replay=%s" % (prop, path))
-        lines.append("  clause=%s source=%s: %s" % (v['clause'], v['source'], v['message']))
+        lines.append("  clause=%s source=%s python=%s: %s" % (v['clause'], v['source'], v.get('python'), v['message']))
 
     # ---- deciding clauses
     deciding = _deciding(prop)
@@ -323,10 +358,11 @@ def run_check(prop, tier, seed):
         equal_deadline_timer_ties=merged['ties'],
         discarded_not_admissible=merged['discarded'],
         cases_per_source=merged['per_source'],
+        cases_per_interpreter=by_python,
         clause_counters=dict(sorted(merged['counters'].items())),
         deciding_clauses={k: merged['counters'].get(k, 0) for k in deciding},
         tags=merged['tags'],
-        shards=nshards,
+        shards=len(plan),
         verdict='violated' if new else ('inconclusive' if inconclusive else 'held on what was observed'),
         known_findings_seen=sorted(seen_known),
         known_finding_cases=n_known,
@@ -340,8 +376,8 @@ def run_check(prop, tier, seed):
         json.dump(evidence, f, indent=1, sort_keys=False)
 
     print("%s tier=%s seed=%s repo=%s: %d cases (%d distinct, %d distinct non-trivial), %d events, "
-          "%d discarded, %.1fs" % (prop, tier, seed, REPO, merged['cases'], len(fps), len(ntfps),
-                                   merged['events'], merged['discarded'], wall))
+          "%d discarded, %.1fs; interpreters %s" % (prop, tier, seed, REPO, merged['cases'], len(fps), len(ntfps),
+                                                    merged['events'], merged['discarded'], wall, by_python))
     for k in deciding:
         print("  observed %-70s %d" % (k, merged['counters'].get(k, 0)))
     for key, v in seen_known.items():
@@ -391,6 +427,13 @@ def _assumptions(prop):
 # ------------------------------------------------------------------ replay
 def replay(prop, path):
     body = json.load(open(path))
+    # a violation seen under the other interpreter is replayed under it
+    want = (body.get('python') or '').rsplit('.', 1)[0]
+    if want and want != "%d.%d" % sys.version_info[:2] and not os.environ.get('VERIF_NO_REEXEC'):
+        other = other_interpreter()
+        if other:
+            os.environ['VERIF_NO_REEXEC'] = '1'
+            os.execv(other, [other, '-B', '-m', 'vmon.campaign', prop, '--replay', path])
     from . import plans
     if prop in plans.RUNTIME:
         from .runners import RUNNERS, run_c06
